@@ -506,16 +506,59 @@ fn junk_row(ty: &str, i: usize) -> Row {
     }
 }
 
-/// the array for `rows`, as a slice at offset `off` of a longer array when `off > 0`
+/// the array for `rows` in the physical realisation coded by `off` (kind = off / 100, k = off % 100):
+///   0, k = 0  the whole array                    0, k > 0  middle slice: k leading and 2 trailing junk rows
+///   1         head slice: no leading, k (≥ 1) trailing junk rows (first offset 0, child longer than referenced)
+///   2         tail slice: k (≥ 1) leading junk rows, nothing trailing
+///   3         List / LargeList / Map whose offsets start at k by construction (k unused leading child rows,
+///             no slicing involved); other types: as kind 2
 fn build(ty: &str, rows: &[Row], off: usize) -> ArrayRef {
-    if off == 0 {
+    let (kind, k) = (off / 100, off % 100);
+    if kind == 0 && k == 0 {
         return build_full(ty, rows, rows.len());
     }
-    let mut full: Vec<Row> = (0..off).map(|i| junk_row(ty, i)).collect();
+    if kind >= 3 && ["list", "llist", "map"].contains(&ty) && k > 0 {
+        let a = build_full(ty, rows, rows.len() + k);
+        let junk = build_full(ty, &vec![Some(81); k], k);
+        let nulls = a.nulls().cloned();
+        return match ty {
+            "list" | "llist" => {
+                fn shifted<O: OffsetSizeTrait>(a: &GenericListArray<O>, junk: &GenericListArray<O>, k: usize, nulls: Option<NullBuffer>) -> ArrayRef {
+                    let child = concat(&[junk.values().slice(0, k).as_ref(), a.values().as_ref()]).unwrap();
+                    let offs: Vec<O> = a.value_offsets().iter().map(|o| *o + O::usize_as(k)).collect();
+                    let field = match a.data_type() {
+                        DataType::List(f) | DataType::LargeList(f) => f.clone(),
+                        _ => unreachable!(),
+                    };
+                    Arc::new(GenericListArray::<O>::new(field, arrow_buffer::OffsetBuffer::new(offs.into()), child, nulls))
+                }
+                if ty == "list" { shifted::<i32>(a.as_list(), junk.as_list(), k, nulls) } else { shifted::<i64>(a.as_list(), junk.as_list(), k, nulls) }
+            }
+            _ => {
+                let (m, j) = (a.as_map(), junk.as_map());
+                let je: &dyn Array = j.entries();
+                let me: &dyn Array = m.entries();
+                let entries = concat(&[je.slice(0, k).as_ref(), me]).unwrap();
+                let offs: Vec<i32> = m.value_offsets().iter().map(|o| *o + k as i32).collect();
+                let field = match m.data_type() {
+                    DataType::Map(f, _) => f.clone(),
+                    _ => unreachable!(),
+                };
+                Arc::new(MapArray::new(field, arrow_buffer::OffsetBuffer::new(offs.into()), entries.as_struct().clone(), nulls, false))
+            }
+        };
+    }
+    let (lead, trail) = match kind {
+        0 => (k, 2),
+        1 => (0, k.max(1)),
+        _ => (k.max(1), 0),
+    };
+    let mut full: Vec<Row> = (0..lead).map(|i| junk_row(ty, i)).collect();
     full.extend_from_slice(rows);
-    full.push(junk_row(ty, off));
-    full.push(junk_row(ty, off + 1));
-    build_full(ty, &full, off + rows.len()).slice(off, rows.len())
+    for i in 0..trail {
+        full.push(junk_row(ty, lead + i));
+    }
+    build_full(ty, &full, lead + rows.len() + 1).slice(lead, rows.len())
 }
 
 /// map a result array back to row ids; `Err` = the array does not hold what any input row held
@@ -696,6 +739,7 @@ fn err_class(e: &ArrowError) -> String {
 
 /// predicate array: null slots keep an underlying `true` value bit; sliced at `moff`
 fn build_mask(mask: &[Option<bool>], moff: usize) -> BooleanArray {
+    let moff = moff % 100;
     let mut full: Vec<Option<bool>> = (0..moff).map(|i| if i % 3 == 0 { None } else { Some(i % 2 == 0) }).collect();
     full.extend_from_slice(mask);
     if moff > 0 {
@@ -728,6 +772,7 @@ fn parse_idx(s: &str) -> Vec<(i128, bool)> {
 }
 
 fn build_idx(ity: &str, items: &[(i128, bool)], ioff: usize) -> ArrayRef {
+    let ioff = ioff % 100;
     let mut full: Vec<(i128, bool)> = (0..ioff).map(|i| (i as i128 % 3, i % 2 == 0)).collect();
     full.extend_from_slice(items);
     let nulls = if full.iter().all(|x| x.1) && ioff % 2 == 0 { None } else { Some(NullBuffer::from(full.iter().map(|x| x.1).collect::<Vec<bool>>())) };
@@ -932,6 +977,89 @@ fn run_phys(t: &[&str]) -> String {
                 }
             })
         }
+        "lconcat" => {
+            // C03 lconcat <list|llist|map> <variant> <offsets/childhex/validity;…>: concat of offset-based nested arrays
+            // given physically; a child row is one byte b (List: Int32 b; Map: key "k<b>", value b).
+            // variant 0 concat, 1 concat_batches, 2 BatchCoalescer (push each, finish)
+            let (kind, var, toks) = (t[2].to_string(), us(t[3]), t[4].to_string());
+            guarded(move || {
+                let arrs: Vec<ArrayRef> = toks
+                    .split(';')
+                    .map(|tok| {
+                        let f: Vec<&str> = tok.split('/').collect();
+                        let offs: Vec<i64> = parse_list(f[0]);
+                        let child: Vec<u8> = unhex(f[1]);
+                        let nulls = if f[2] == "-" { None } else { Some(NullBuffer::from(parse_bits(f[2]))) };
+                        let vals = Int32Array::from(child.iter().map(|b| *b as i32).collect::<Vec<i32>>());
+                        let o32 = arrow_buffer::OffsetBuffer::new(ScalarBuffer::from(offs.iter().map(|x| *x as i32).collect::<Vec<i32>>()));
+                        match kind.as_str() {
+                            "list" => Arc::new(ListArray::new(Arc::new(Field::new_list_field(DataType::Int32, true)), o32, Arc::new(vals), nulls)) as ArrayRef,
+                            "llist" => Arc::new(LargeListArray::new(
+                                Arc::new(Field::new_list_field(DataType::Int32, true)),
+                                arrow_buffer::OffsetBuffer::new(ScalarBuffer::from(offs.clone())),
+                                Arc::new(vals),
+                                nulls,
+                            )),
+                            _ => {
+                                let keys = StringArray::from_iter_values(child.iter().map(|b| format!("k{b}")));
+                                let field = match data_type_of("map") {
+                                    DataType::Map(f, _) => f,
+                                    _ => unreachable!(),
+                                };
+                                let fields = match field.data_type() {
+                                    DataType::Struct(fs) => fs.clone(),
+                                    _ => unreachable!(),
+                                };
+                                let entries = StructArray::new(fields, vec![Arc::new(keys), Arc::new(vals)], None);
+                                Arc::new(MapArray::new(field, o32, entries, nulls, false))
+                            }
+                        }
+                    })
+                    .collect();
+                let refs: Vec<&dyn Array> = arrs.iter().map(|a| a.as_ref()).collect();
+                let schema = Arc::new(Schema::new(vec![Field::new("c0", arrs[0].data_type().clone(), true)]));
+                let bs: Vec<RecordBatch> = arrs.iter().map(|a| RecordBatch::try_new(schema.clone(), vec![a.clone()]).unwrap()).collect();
+                let r: Result<ArrayRef, ArrowError> = match var % 3 {
+                    0 => concat(&refs),
+                    1 => concat_batches(&schema, bs.iter()).map(|b| b.column(0).clone()),
+                    _ => {
+                        let mut c = BatchCoalescer::new(schema.clone(), 1 << 20);
+                        for b in bs {
+                            c.push_batch(b).unwrap();
+                        }
+                        c.finish_buffered_batch().unwrap();
+                        match c.next_completed_batch() {
+                            Some(b) => Ok(b.column(0).clone()),
+                            None => Ok(arrs[0].slice(0, 0)),
+                        }
+                    }
+                };
+                match r {
+                    Ok(x) => {
+                        // logical rows: each slot as the hex string of its child bytes (key/value consistency checked for maps)
+                        let rows: Vec<String> = (0..x.len())
+                            .map(|i| {
+                                if x.is_null(i) {
+                                    return "n".to_string();
+                                }
+                                let bytes: Vec<u8> = match kind.as_str() {
+                                    "list" => x.as_list::<i32>().value(i).as_primitive::<Int32Type>().values().iter().map(|v| *v as u8).collect(),
+                                    "llist" => x.as_list::<i64>().value(i).as_primitive::<Int32Type>().values().iter().map(|v| *v as u8).collect(),
+                                    _ => {
+                                        let e = x.as_map().value(i);
+                                        let (k, v) = (e.column(0).as_string::<i32>(), e.column(1).as_primitive::<Int32Type>());
+                                        (0..e.len()).map(|j| if k.value(j) == format!("k{}", v.value(j)) { v.value(j) as u8 } else { 0xEE }).collect()
+                                    }
+                                };
+                                hex(&bytes)
+                            })
+                            .collect();
+                        show_list(&rows)
+                    }
+                    Err(e) => err_class(&e),
+                }
+            })
+        }
         "dconcat" => {
             // C03 dconcat <ktype> <variant> <keys/values;…> <pairs|->
             //   keys: `n` | index;  values: `e` (empty) | hex valid, `n` | `n<hex>` NULL slot over those bytes
@@ -1088,7 +1216,7 @@ fn run_case(line: &str) -> String {
     let t: Vec<&str> = line.split(' ').collect();
     assert_eq!(t[0], "C03");
     match t[1] {
-        "bfilter" | "btake" | "bconcat" | "binterleave" | "fsbfilter" | "fsbtake" | "ree" | "dconcat" | "slices" | "prepmask" | "filternulls" | "gc" | "slice" => run_phys(&t),
+        "bfilter" | "btake" | "bconcat" | "binterleave" | "fsbfilter" | "fsbtake" | "ree" | "dconcat" | "lconcat" | "slices" | "prepmask" | "filternulls" | "gc" | "slice" => run_phys(&t),
         "filter" => {
             // C03 filter <ty> <variant> <off> <rows> <moff> <mask>
             let (ty, var, off, rows, moff, mask) = (t[2], us(t[3]), us(t[4]), parse_rows(t[5]), us(t[6]), parse_mask(t[7]));
@@ -1378,7 +1506,8 @@ fn gen_len(rng: &mut Rng) -> usize {
 }
 
 fn gen_off(rng: &mut Rng) -> usize {
-    if rng.chance(2, 5) { 0 } else { *rng.pick(&[1usize, 2, 3, 5, 7, 8, 9, 13, 63, 64, 65]) }
+    // whole / middle slice (lead k, 2 trailing) / head slice 10k / tail slice 20k / constructed first offset 30k
+    if rng.chance(2, 5) { 0 } else { *rng.pick(&[1usize, 2, 3, 5, 7, 8, 9, 13, 63, 64, 65, 101, 102, 105, 201, 203, 208, 301, 303]) }
 }
 
 fn gen_rows(rng: &mut Rng, ty: &str, n: usize) -> (Vec<Row>, &'static str) {
@@ -1788,6 +1917,13 @@ fn gen_phys(rng: &mut Rng, ty: &str) -> (String, String) {
     }
     if rng.chance(1, 5) {
         return gen_small_ops(rng, ty);
+    }
+    if rng.chance(1, 6) {
+        let k = 1 + rng.usize(4);
+        let toks: Vec<String> = (0..k).map(|_| { let n = if rng.chance(1, 5) { 0 } else { rng.usize(6) }; gen_bytes_tok(rng, n) }).collect();
+        let kind = *rng.pick(&["list", "llist", "map"]);
+        let var = rng.usize(3);
+        return (format!("C03 lconcat {} {} {}", kind, var, toks.join(";")), format!("op:lconcat lkind:{} lvar:{} {}", kind, var, if k > 1 { "nt" } else { "" }));
     }
     match rng.below(9) {
         0 | 1 => {
@@ -2204,6 +2340,71 @@ fn fixed_block() -> Vec<(String, String)> {
                     ),
                     format!("fixed op:coalesce cty:{} fx:sparse-threshold nt", ty),
                 ));
+            }
+        }
+    }
+    // slice kinds × positions for multi-input kernels: per input {whole, head slice with unused trailing child
+    // rows, tail slice, middle slice, empty slice, first offset ≠ 0 by construction}; the full cross product over
+    // 3 inputs for the offset-based nested types, one non-whole input at a time for every other type
+    let kinds: [(usize, bool); 6] = [(0, false), (102, false), (202, false), (2, false), (3, true), (302, false)];
+    let nested = ["list", "llist", "lv", "map"];
+    for (ti, ty) in ALL_TYPES.iter().enumerate() {
+        if *ty == "dicts" {
+            continue;
+        }
+        let full = nested.contains(ty);
+        let narrow = *ty == "dicti8" || *ty == "dictu8";
+        let input = |pos: usize, kind: usize| -> (String, usize) {
+            let (off, empty) = kinds[kind];
+            let rows = if empty { vec![] } else { rows_of(ty, 4, ti + 3 * pos + 1) };
+            (format!("{}:{}", off, show_rows(&rows)), rows.len())
+        };
+        for a in 0..6 {
+            for b in 0..6 {
+                for c in 0..6 {
+                    if !full && [a, b, c].iter().filter(|k| **k != 0).count() != 1 {
+                        continue;
+                    }
+                    let ins = [input(0, a), input(1, b), input(2, c)];
+                    let arrs = ins.iter().map(|x| x.0.clone()).collect::<Vec<_>>().join(";");
+                    let tag = format!("fixed ty:{} fx:slice-kinds k:{}{}{}", ty, a, b, c);
+                    for var in 0..2 {
+                        out.push((format!("C03 concat {} {} {}", ty, var, arrs), format!("{} op:concat cvar:{} nt", tag, var)));
+                    }
+                    let pairs: Vec<String> = (0..9).filter_map(|i| { let p = (i * 2) % 3; if ins[p].1 > 0 { Some(format!("{}.{}", p, (i * 3 + p) % ins[p].1)) } else { None } }).collect();
+                    if !pairs.is_empty() {
+                        out.push((format!("C03 interleave {} {} {}", ty, arrs, pairs.join(",")), format!("{} op:interleave nt", tag)));
+                    }
+                    if !narrow {
+                        let ops: Vec<String> = ins.iter().map(|x| format!("p:{}", x.0)).collect();
+                        out.push((format!("C03 coalesce {} 5 - {};x", ty, ops.join(";")), format!("{} op:coalesce cty:{} nt", tag, ty)));
+                    }
+                }
+            }
+        }
+        if full {
+            for a in 0..6 {
+                for b in 0..6 {
+                    if kinds[a].1 || kinds[b].1 {
+                        continue;
+                    }
+                    let (x, y) = (input(0, a).0, input(1, b).0);
+                    out.push((format!("C03 zip {} 0 1001 a:{} a:{}", ty, x, y), format!("fixed ty:{} fx:slice-kinds k:{}{} op:zip nt", ty, a, b)));
+                    out.push((format!("C03 merge {} 0 10010110 a:{} a:{}", ty, x, y), format!("fixed ty:{} fx:slice-kinds k:{}{} op:merge nt", ty, a, b)));
+                    out.push((format!("C03 mergen {} {};{} 0,1,1,0,n,0,1,0,1", ty, x, y), format!("fixed ty:{} fx:slice-kinds k:{}{} op:mergen nt", ty, a, b)));
+                }
+            }
+        }
+    }
+    // the same slice kinds given physically (offsets / child bytes / validity) for concat, concat_batches, coalescer
+    let ptoks = ["0,2,3,5/0102030405/-", "0,2,3/0102030a0b/-", "2,3,5/0a0b030405/10", "1,2,4/0a02030405/-", "2/0a0b0c/-", "0,0,2/0102/01"];
+    for kind in ["list", "llist", "map"] {
+        for a in 0..6 {
+            for b in 0..6 {
+                for c in 0..6 {
+                    let var = (a + b + c) % 3;
+                    out.push((format!("C03 lconcat {} {} {};{};{}", kind, var, ptoks[a], ptoks[b], ptoks[c]), format!("fixed op:lconcat lkind:{} lvar:{} fx:slice-kinds nt", kind, var)));
+                }
             }
         }
     }
